@@ -152,32 +152,7 @@ func resolveAnchors(c *Ctx) *Anchors {
 		}
 	}
 
-	a.Parse = c.method("Parser", "Parse")
-	a.ParseExpr = c.method("Parser", "parseExpression")
-	a.Nud = c.method("Parser", "nud")
-	a.Led = c.method("Parser", "led")
-	a.ParseProjRHS = c.method("Parser", "parseProjectionRHS")
-	a.ParseDotRHS = c.method("Parser", "parseDotRHS")
-	a.Match = c.method("Parser", "match")
-	a.Advance = c.method("Parser", "advance")
-	a.Current = c.method("Parser", "current")
-	a.Lookahead = c.method("Parser", "lookahead")
-	a.LookTok = c.method("Parser", "lookaheadToken")
-	a.Tokenize = c.method("Lexer", "tokenize")
-	a.Compile = c.libFunc("Compile")
-	a.MustCompile = c.libFunc("MustCompile")
-	a.Search = c.libFunc("Search")
-	a.JPSearch = c.method("JMESPath", "Search")
-	a.NewParser = c.libFunc("NewParser")
-	a.NewLexer = c.libFunc("NewLexer")
-	a.NewInterp = c.libFunc("newInterpreter")
-	a.NewFCaller = c.libFunc("newFunctionCaller")
-	a.CallFunction = c.method("functionCaller", "CallFunction")
-	a.ResolveArgs = c.method("functionEntry", "resolveArgs")
-	a.TypeCheck = c.method("argSpec", "typeCheck")
-	a.IsFalse = c.libFunc("isFalse")
-	a.ObjsEqual = c.libFunc("objsEqual")
-	a.IsSliceType = c.libFunc("isSliceType")
+	c.resolveFuncAnchors(a)
 
 	// the precedence table by type: the package-level map[tokType]int
 	for _, m := range c.SLib.Members {
@@ -452,4 +427,346 @@ func evalFunctionTableAbs(c *Ctx, a *Anchors) []*TableEntry {
 	}
 	sort.Slice(out, func(i, j int) bool { return out[i].Key < out[j].Key })
 	return out
+}
+
+// resolveFuncAnchors finds the functions the rules hang on by ROLE: receiver
+// type, signature and one structural trait each. The conventional name only
+// breaks ties, so renaming an unexported function or method does not lose it.
+func (c *Ctx) resolveFuncAnchors(a *Anchors) {
+	iface := func(t types.Type) bool { _, ok := t.Underlying().(*types.Interface); return ok }
+	recvIs := func(f *ssa.Function, T *types.Named) bool {
+		if f.Signature.Recv() == nil {
+			return false
+		}
+		t := f.Signature.Recv().Type()
+		if pt, ok := t.(*types.Pointer); ok {
+			t = pt.Elem()
+		}
+		return types.Identical(t, T)
+	}
+	sig := func(f *ssa.Function, params []func(types.Type) bool, results []func(types.Type) bool) bool {
+		p, r := f.Signature.Params(), f.Signature.Results()
+		if p.Len() != len(params) || r.Len() != len(results) {
+			return false
+		}
+		for i, ok := range params {
+			if !ok(p.At(i).Type()) {
+				return false
+			}
+		}
+		for i, ok := range results {
+			if !ok(r.At(i).Type()) {
+				return false
+			}
+		}
+		return true
+	}
+	is := func(T types.Type) func(types.Type) bool { return func(t types.Type) bool { return types.Identical(t, T) } }
+	isInt, isStr, isBool := is(types.Typ[types.Int]), is(types.Typ[types.String]), is(types.Typ[types.Bool])
+	isErr := func(t types.Type) bool { return isErrorType(t) }
+	isNode, isTok, isToken := is(a.ASTNode), is(a.TokT), is(a.TokenT)
+	isRune := is(types.Typ[types.Rune])
+	all := allFuncs(c.SLib)
+	// pick: the candidates of a role; one => it; several => the one with the conventional name
+	pick := func(role, name string, cands []*ssa.Function) *ssa.Function {
+		var named *ssa.Function
+		uniq := map[*ssa.Function]bool{}
+		var list []*ssa.Function
+		for _, f := range cands {
+			if f != nil && !uniq[f] {
+				uniq[f] = true
+				list = append(list, f)
+				if f.Name() == name {
+					named = f
+				}
+			}
+		}
+		switch {
+		case len(list) == 1:
+			return list[0]
+		case named != nil:
+			return named
+		case len(list) == 0:
+			lost("%s (conventionally %s): no function has that role", role, name)
+		default:
+			var ns []string
+			for _, f := range list {
+				ns = append(ns, f.Name())
+			}
+			sort.Strings(ns)
+			lost("%s (conventionally %s): several functions have that role: %v", role, name, ns)
+		}
+		return nil
+	}
+	where := func(pred func(f *ssa.Function) bool) []*ssa.Function {
+		var out []*ssa.Function
+		for _, f := range all {
+			if f.Blocks != nil && f.Parent() == nil && pred(f) {
+				out = append(out, f)
+			}
+		}
+		return out
+	}
+	writesField := func(f *ssa.Function, T *types.Named, field string) bool {
+		for _, b := range f.Blocks {
+			for _, in := range b.Instrs {
+				if st, ok := in.(*ssa.Store); ok {
+					if fa, ok := st.Addr.(*ssa.FieldAddr); ok {
+						if pt, ok := fa.X.Type().Underlying().(*types.Pointer); ok && types.Identical(pt.Elem(), T) && fieldName(T, fa.Field) == field {
+							return true
+						}
+					}
+				}
+			}
+		}
+		return false
+	}
+	calls := func(f, g *ssa.Function) bool { return g != nil && len(callsTo(f, g)) > 0 }
+
+	// ---- Parser
+	P := a.ParserT
+	a.Nud = pick("the prefix handler of the parser: method (token) (ASTNode, error)", "nud",
+		where(func(f *ssa.Function) bool { return recvIs(f, P) && sig(f, []func(types.Type) bool{isToken}, []func(types.Type) bool{isNode, isErr}) }))
+	a.Led = pick("the infix handler of the parser: method (tokType, ASTNode) (ASTNode, error)", "led",
+		where(func(f *ssa.Function) bool { return recvIs(f, P) && sig(f, []func(types.Type) bool{isTok, isNode}, []func(types.Type) bool{isNode, isErr}) }))
+	intToNode := where(func(f *ssa.Function) bool { return recvIs(f, P) && sig(f, []func(types.Type) bool{isInt}, []func(types.Type) bool{isNode, isErr}) })
+	var pe, others []*ssa.Function
+	for _, f := range intToNode {
+		if calls(f, a.Nud) && calls(f, a.Led) {
+			pe = append(pe, f)
+		} else {
+			others = append(others, f)
+		}
+	}
+	a.ParseExpr = pick("the Pratt loop: method (int) (ASTNode, error) calling both handlers", "parseExpression", pe)
+	buildsIdentity := func(f *ssa.Function) bool {
+		for _, b := range f.Blocks {
+			for _, in := range b.Instrs {
+				if st, ok := in.(*ssa.Store); ok {
+					if fa, ok := st.Addr.(*ssa.FieldAddr); ok && fa.Field == 0 && func() bool { pt, ok := fa.X.Type().(*types.Pointer); return ok && types.Identical(pt.Elem(), a.ASTNode) }() {
+						if k, ok := constInt(st.Val); ok && a.NTName[k] == "ASTIdentity" {
+							return true
+						}
+					}
+				}
+			}
+		}
+		return false
+	}
+	var proj, dot []*ssa.Function
+	for _, f := range others {
+		if buildsIdentity(f) {
+			proj = append(proj, f)
+		} else {
+			dot = append(dot, f)
+		}
+	}
+	a.ParseProjRHS = pick("the projection right-hand side: method (int) (ASTNode, error) that can yield the identity node", "parseProjectionRHS", proj)
+	a.ParseDotRHS = pick("the right-hand side of a dot: method (int) (ASTNode, error)", "parseDotRHS", dot)
+	a.Parse = pick("Parser.Parse: method (string) (ASTNode, error)", "Parse",
+		where(func(f *ssa.Function) bool { return recvIs(f, P) && sig(f, []func(types.Type) bool{isStr}, []func(types.Type) bool{isNode, isErr}) }))
+	a.Match = pick("match: method (tokType) error", "match",
+		where(func(f *ssa.Function) bool { return recvIs(f, P) && sig(f, []func(types.Type) bool{isTok}, []func(types.Type) bool{isErr}) }))
+	a.Advance = pick("advance: method () of the parser that moves the token cursor", "advance",
+		where(func(f *ssa.Function) bool { return recvIs(f, P) && sig(f, nil, nil) && writesField(f, P, "index") }))
+	a.Current = pick("current: method () tokType", "current",
+		where(func(f *ssa.Function) bool { return recvIs(f, P) && sig(f, nil, []func(types.Type) bool{isTok}) }))
+	a.Lookahead = pick("lookahead: method (int) tokType", "lookahead",
+		where(func(f *ssa.Function) bool { return recvIs(f, P) && sig(f, []func(types.Type) bool{isInt}, []func(types.Type) bool{isTok}) }))
+	a.LookTok = pick("lookaheadToken: method (int) token", "lookaheadToken",
+		where(func(f *ssa.Function) bool { return recvIs(f, P) && sig(f, []func(types.Type) bool{isInt}, []func(types.Type) bool{isToken}) }))
+
+	// ---- Lexer
+	L := a.LexerT
+	isTokSlice := func(t types.Type) bool {
+		sl, ok := t.Underlying().(*types.Slice)
+		return ok && types.Identical(sl.Elem(), a.TokenT)
+	}
+	a.Tokenize = pick("tokenize: method (string) ([]token, error)", "tokenize",
+		where(func(f *ssa.Function) bool { return recvIs(f, L) && sig(f, []func(types.Type) bool{isStr}, []func(types.Type) bool{isTokSlice, isErr}) }))
+
+	// ---- API and constructors (exported names are the API; unexported by result type)
+	a.Compile = c.libFunc("Compile")
+	a.MustCompile = c.libFunc("MustCompile")
+	a.Search = c.libFunc("Search")
+	a.JPSearch = c.method("JMESPath", "Search")
+	a.NewParser = c.libFunc("NewParser")
+	a.NewLexer = c.libFunc("NewLexer")
+	ptrTo := func(T *types.Named) func(types.Type) bool {
+		return func(t types.Type) bool {
+			pt, ok := t.(*types.Pointer)
+			return ok && types.Identical(pt.Elem(), T)
+		}
+	}
+	fcT := c.namedType(c.SLib, "functionCaller")
+	a.NewInterp = pick("constructor of the interpreter: func() *treeInterpreter", "newInterpreter",
+		where(func(f *ssa.Function) bool { return f.Signature.Recv() == nil && sig(f, nil, []func(types.Type) bool{ptrTo(a.InterpT)}) }))
+	a.NewFCaller = pick("constructor of the function caller: func() *functionCaller", "newFunctionCaller",
+		where(func(f *ssa.Function) bool { return f.Signature.Recv() == nil && sig(f, nil, []func(types.Type) bool{ptrTo(fcT)}) }))
+	isIfaceSlice := func(t types.Type) bool {
+		sl, ok := t.Underlying().(*types.Slice)
+		return ok && iface(sl.Elem())
+	}
+	a.CallFunction = pick("CallFunction: method of the function caller (string, []interface{}, ...) (interface{}, error)", "CallFunction",
+		where(func(f *ssa.Function) bool {
+			p := f.Signature.Params()
+			return recvIs(f, fcT) && p.Len() >= 2 && isStr(p.At(0).Type()) && isIfaceSlice(p.At(1).Type()) &&
+				f.Signature.Results().Len() == 2 && iface(f.Signature.Results().At(0).Type()) && isErr(f.Signature.Results().At(1).Type())
+		}))
+	a.ResolveArgs = pick("resolveArgs: method of a function entry ([]interface{}) ([]interface{}, error)", "resolveArgs",
+		where(func(f *ssa.Function) bool { return recvIs(f, a.FEntryT) && sig(f, []func(types.Type) bool{isIfaceSlice}, []func(types.Type) bool{isIfaceSlice, isErr}) }))
+	a.TypeCheck = pick("typeCheck: method of an argument specification (interface{}) error", "typeCheck",
+		where(func(f *ssa.Function) bool { return recvIs(f, a.ArgSpecT) && sig(f, []func(types.Type) bool{iface}, []func(types.Type) bool{isErr}) }))
+	a.ObjsEqual = pick("deep equality: func(interface{}, interface{}) bool", "objsEqual",
+		where(func(f *ssa.Function) bool { return f.Signature.Recv() == nil && sig(f, []func(types.Type) bool{iface, iface}, []func(types.Type) bool{isBool}) }))
+	// truthiness and "is a slice": both func(interface{}) bool; the truth test is
+	// the one the evaluator's negation clause calls
+	preds := where(func(f *ssa.Function) bool { return f.Signature.Recv() == nil && sig(f, []func(types.Type) bool{iface}, []func(types.Type) bool{isBool}) })
+	var truth, rest []*ssa.Function
+	if cl := a.ExecSw.clause("ASTNotExpression"); cl != nil {
+		for _, f := range preds {
+			used := false
+			for _, call := range callsTo(a.Exec, f) {
+				if a.ExecSw.clauseAt(instrPos(call)) == cl {
+					used = true
+				}
+			}
+			if used {
+				truth = append(truth, f)
+			} else {
+				rest = append(rest, f)
+			}
+		}
+	}
+	if len(truth) == 0 {
+		truth = preds
+	}
+	a.IsFalse = pick("the truth test: func(interface{}) bool used by the negation case", "isFalse", truth)
+	if f := c.libFuncOpt("isSliceType"); f != nil {
+		a.IsSliceType = f
+	} else if len(rest) == 1 {
+		a.IsSliceType = rest[0]
+	}
+	_ = isRune
+}
+
+// nodeProducerFn: the library function that builds nodes of the given type
+// (the conventional name breaks ties between several).
+func (c *Ctx) nodeProducerFn(nodeType, conventional string) *ssa.Function {
+	k, ok := c.A.NT[nodeType]
+	if !ok {
+		lost("node type %s not found", nodeType)
+	}
+	seen := map[*ssa.Function]bool{}
+	var cands []*ssa.Function
+	for _, fn := range allFuncs(c.SLib) {
+		for _, b := range fn.Blocks {
+			for _, in := range b.Instrs {
+				st, ok := in.(*ssa.Store)
+				if !ok {
+					continue
+				}
+				fa, ok := st.Addr.(*ssa.FieldAddr)
+				if !ok || fa.Field != fNodeType || !c.isASTNodePtr(fa.X.Type()) {
+					continue
+				}
+				if v, ok := constInt(st.Val); ok && v == k && types.Identical(st.Val.Type(), c.A.NodeTypeT) && !seen[fn] {
+					seen[fn] = true
+					cands = append(cands, fn)
+				}
+			}
+		}
+	}
+	return pickOne("the function that builds "+nodeType+" nodes", conventional, cands)
+}
+
+// tokenProducerFn: the lexer function that emits tokens of the given type.
+func (c *Ctx) tokenProducerFn(tok, conventional string) *ssa.Function {
+	k := c.tok(tok)
+	seen := map[*ssa.Function]bool{}
+	var cands []*ssa.Function
+	for _, fn := range allFuncs(c.SLib) {
+		if fn == c.A.Tokenize {
+			continue
+		}
+		for _, b := range fn.Blocks {
+			for _, in := range b.Instrs {
+				st, ok := in.(*ssa.Store)
+				if !ok {
+					continue
+				}
+				fa, ok := st.Addr.(*ssa.FieldAddr)
+				if !ok || fa.Field != 0 {
+					continue
+				}
+				if pt, ok := fa.X.Type().Underlying().(*types.Pointer); !ok || !types.Identical(pt.Elem(), c.A.TokenT) {
+					continue
+				}
+				if v, ok := constInt(st.Val); ok && v == k && !seen[fn] {
+					seen[fn] = true
+					cands = append(cands, fn)
+				}
+			}
+		}
+	}
+	return pickOne("the scanner that emits "+tok, conventional, cands)
+}
+
+func pickOne(role, name string, cands []*ssa.Function) *ssa.Function {
+	if len(cands) == 1 {
+		return cands[0]
+	}
+	for _, f := range cands {
+		if f.Name() == name {
+			return f
+		}
+	}
+	var ns []string
+	for _, f := range cands {
+		ns = append(ns, f.Name())
+	}
+	sort.Strings(ns)
+	lost("%s (conventionally %s): %d candidates %v", role, name, len(cands), ns)
+	return nil
+}
+
+// sliceFns: the function that applies a slice to a list (called by the
+// evaluator's slice case: ([]interface{}, params) ([]interface{}, error)) and
+// the function it calls to compute the bounds (... ) ([]int-like, error).
+func (c *Ctx) sliceFns() (sl, cp *ssa.Function) {
+	isIfaceSlice := func(t types.Type) bool {
+		s, ok := t.Underlying().(*types.Slice)
+		if !ok {
+			return false
+		}
+		_, ok = s.Elem().Underlying().(*types.Interface)
+		return ok
+	}
+	var cands []*ssa.Function
+	for _, fn := range allFuncs(c.SLib) {
+		sg := fn.Signature
+		if fn.Blocks == nil || sg.Recv() != nil || sg.Params().Len() != 2 || sg.Results().Len() != 2 {
+			continue
+		}
+		if isIfaceSlice(sg.Params().At(0).Type()) && isIfaceSlice(sg.Results().At(0).Type()) && isErrorType(sg.Results().At(1).Type()) {
+			if len(callsTo(c.A.Exec, fn)) > 0 {
+				cands = append(cands, fn)
+			}
+		}
+	}
+	sl = pickOne("the function that slices a list", "slice", cands)
+	var cps []*ssa.Function
+	seen := map[*ssa.Function]bool{}
+	for _, b := range sl.Blocks {
+		for _, in := range b.Instrs {
+			if call, ok := in.(*ssa.Call); ok {
+				if g := staticCallee(call); g != nil && g.Pkg == c.SLib && errIndex(g.Signature) >= 0 && !seen[g] {
+					seen[g] = true
+					cps = append(cps, g)
+				}
+			}
+		}
+	}
+	cp = pickOne("the function that computes the slice bounds", "computeSliceParams", cps)
+	return
 }
